@@ -260,6 +260,76 @@ theorem runs_history (evs : List (List (Str × Evaluated))) {cfg : JCfg} (hs : A
       obtain ⟨mid, m1, m2, m3, m4⟩ := h2 pre' last hrest
       exact ⟨mid, by simp [runs, e1, m1], m2, m3, m4⟩
 
+/-! ### Histories in which the router changes between runs
+
+The ephemeral configuration is not the agent's alone: a reboot empties it (Junos does not keep an
+ephemeral instance across a restart), an operator may delete a policy. The agent keeps nothing
+from one run to the next — every run reads the installed state afresh — so whatever happens between
+two runs, as long as it leaves an agent state, the next run converges for its own inputs. (A daemon
+that carried the installed state over from its previous run would satisfy `runs_history` and fail
+this.) -/
+
+/-- runs with an external change `e` of the installed configuration before each of them -/
+def runsExt : JCfg → List ((JCfg → JCfg) × List (Str × Evaluated)) → Except Err JCfg
+  | cfg, [] => .ok cfg
+  | cfg, (e, ev) :: rest =>
+    match run .fixed (e cfg) ev with
+    | .error x => .error x
+    | .ok cfg' => runsExt cfg' rest
+
+theorem runs_with_external_changes (steps : List ((JCfg → JCfg) × List (Str × Evaluated))) {cfg : JCfg}
+    (hs : AgentState cfg)
+    (he : ∀ s ∈ steps, ∀ c, AgentState c → AgentState (s.1 c))
+    (hv : ∀ s ∈ steps, EvValid s.2) :
+    ∃ cfg', runsExt cfg steps = .ok cfg' ∧ AgentState cfg' ∧
+      ∀ pre e ev, steps = pre ++ [(e, ev)] →
+        ∃ mid, runsExt cfg pre = .ok mid ∧ AgentState mid ∧ run .fixed (e mid) ev = .ok cfg' ∧
+          Converged ev (e mid) cfg' := by
+  induction steps generalizing cfg with
+  | nil => exact ⟨cfg, rfl, hs, fun pre e ev h => by simp at h⟩
+  | cons st rest ih =>
+    obtain ⟨e, ev⟩ := st
+    have hs1 : AgentState (e cfg) := he (e, ev) (by simp) cfg hs
+    obtain ⟨c1, e1, k1⟩ := run_converges_emitted hs1 ev (hv (e, ev) (by simp))
+    obtain ⟨c2, e2, s2, h2⟩ := ih k1.state (fun x hx => he x (by simp [hx])) (fun x hx => hv x (by simp [hx]))
+    refine ⟨c2, by simp [runsExt, e1, e2], s2, ?_⟩
+    intro pre e' last hsplit
+    cases pre with
+    | nil =>
+      simp only [List.nil_append, List.cons.injEq, Prod.mk.injEq] at hsplit
+      obtain ⟨⟨rfl, rfl⟩, rfl⟩ := hsplit
+      simp only [runsExt, Except.ok.injEq] at e2
+      subst e2
+      exact ⟨cfg, rfl, hs, e1, k1⟩
+    | cons x pre' =>
+      simp only [List.cons_append, List.cons.injEq] at hsplit
+      obtain ⟨rfl, hrest⟩ := hsplit
+      obtain ⟨mid, m1, m2, m3, m4⟩ := h2 pre' e' last hrest
+      exact ⟨mid, by simp [runsExt, e1, m1], m2, m3, m4⟩
+
+/-- a reboot: the ephemeral instance is empty afterwards — an agent state -/
+theorem agentState_reboot (c : JCfg) : AgentState ((fun _ : JCfg => ([] : JCfg)) c) :=
+  ⟨by simp [keys], fun n p h => by simp [alGet] at h⟩
+
+/-- so: any history of runs with a reboot before any of them ends converged for the last inputs -/
+theorem runs_with_reboots (steps : List (Bool × List (Str × Evaluated))) {cfg : JCfg} (hs : AgentState cfg)
+    (hv : ∀ s ∈ steps, EvValid s.2) :
+    ∃ cfg', runsExt cfg (steps.map fun s => ((if s.1 then fun _ => [] else id), s.2)) = .ok cfg' ∧
+      AgentState cfg' := by
+  obtain ⟨c, h1, h2, _⟩ := runs_with_external_changes
+    (steps.map fun s => ((if s.1 then fun _ => ([] : JCfg) else id), s.2)) hs
+    (by
+      intro s hsm c hc
+      obtain ⟨t, _, rfl⟩ := List.mem_map.1 hsm
+      cases t.1
+      · simpa using hc
+      · simpa using agentState_reboot c)
+    (by
+      intro s hsm
+      obtain ⟨t, ht, rfl⟩ := List.mem_map.1 hsm
+      exact hv t ht)
+  exact ⟨c, h1, h2⟩
+
 /-- the states the agent can produce: closure of the empty configuration under (successful) runs -/
 inductive Reachable : JCfg → Prop where
   | empty : Reachable []
@@ -312,6 +382,13 @@ example :
                    | none => false)
            | .error _ => false)
      | .error _ => false) = true := by decide
+
+/-- a reboot between two runs: the second run restores everything (and equals a first run on an
+empty router); without the reboot it finds nothing to do and leaves the same state -/
+example :
+    (runsExt [] [(id, exEv), ((fun _ => []), exEv)]).toOption = (run .fixed [] exEv).toOption ∧
+    (runsExt [] [(id, exEv), (id, exEv)]).toOption = (run .fixed [] exEv).toOption ∧
+    (run .fixed [] exEv).toOption.isSome = true := by decide
 
 example : EvValid exEv := by
   intro n e a b h
